@@ -233,6 +233,8 @@ PROPS = {    "C01": {
     },
     "C11": {
         "obligations": [
+            {"name": "C11.retry", "pkg": SCHED, "replay": "R1", "must_assert": ["C11.retry/captured-output-is-restored-unchanged-for-a-retry"],
+             "quick": {"entry": "VerifHarness_C11_retryrestore", "flags": ["-unwind", "16", "-solver", "cvc5", "-fallback", "z3"], "sample_paths": 1, "bounds": {"value_len": "<= 6 bytes (ASCII), symbolic"}}},
             {"name": "C11.out", "pkg": SCHED, "replay": "R1t", "labels_unordered": True, "label_prefixes": ["C11."], "must_assert": ["C11.out/captured-output-is-trimmed-stdout-in-environment"],
              "quick": {"entry": "VerifHarness_C12_bytes", "flags": C12_FLAGS, "sample_paths": 2, "bounds": {"attempts": "1..2", "chunk_len": "<= 6 bytes (ASCII)", "config": "stdout file x stderr file x output variable"}},
              "thorough": {"entry": "VerifHarness_C12_bytes3", "flags": C12_FLAGS, "sample_paths": 2, "bounds": {"attempts": "1..3", "chunk_len": "<= 6 bytes (ASCII)"}}},
